@@ -58,6 +58,23 @@ CAMPAIGNS = {
         quick=[ex(ph(["filter_subsets"], False, "r"))], thorough=[ex(ph(["filter_subsets"], False, "r"))],
         cap_quick=8000, cap_thorough=400000),
         univ={"quick": {"n": 3, "m": 3, "vals": 2, "k": 60}, "thorough": {"n": 3, "m": 3, "vals": 3, "k": 1500}}),
+    "reorder_universe": dict(model_campaign(
+        "reorder_universe", heaps="univ", palettes=[["plain", "plain"], ["long_ids", "scale_up"]],
+        quick=[ex(ph(["sort_order", "transpose", "sort", "copy"], True, "r"))],
+        thorough=[ex(ph(["sort_order", "transpose", "sort", "copy", "update_ids"], True, "r"))],
+        cap_quick=8000, cap_thorough=200000),
+        univ={"quick": {"n": 2, "m": 3, "vals": 3, "k": 80}, "thorough": {"n": 2, "m": 3, "vals": 3, "k": 0}}),
+    "transform_universe": dict(model_campaign(
+        "transform_universe", heaps="univ", palettes=[["plain", "plain"], ["plain", "scale_down"], ["unicode", "scale_up"]],
+        quick=[ex(ph(["transform", "norm", "pa", "rankdata"], False, "r"))],
+        thorough=[ex(ph(["transform", "norm", "pa", "rankdata"], True, "r"))],
+        cap_quick=8000, cap_thorough=200000),
+        univ={"quick": {"n": 3, "m": 2, "vals": 3, "k": 80}, "thorough": {"n": 3, "m": 2, "vals": 3, "k": 0}}),
+    "summary_universe": dict(model_campaign(
+        "summary_universe", heaps="univ", palettes=[["plain", "plain"], ["case_ids", "scale_up"]],
+        quick=[ex(ph(["summary"], False, "r"))], thorough=[ex(ph(["summary"], True, "r"))],
+        cap_quick=8000, cap_thorough=200000),
+        univ={"quick": {"n": 2, "m": 3, "vals": 3, "k": 60}, "thorough": {"n": 2, "m": 3, "vals": 3, "k": 0}}),
     "filter_after_history": model_campaign(
         "filter_after_history",
         quick=[ex(ph(HIST), ph(["filter_ids"], True, "r", 6)),
@@ -327,7 +344,7 @@ PROPERTIES = {
             "assumptions": ["the mutated file is classified by harness/valdoc.py (json/h5py only, written against the "
                             "format documents); a validator crash counts as 'not reported valid'"]},
     "C17": {"level": "model_checking", "campaigns": [CAMPAIGNS["constructions"]], "assumptions": []},
-    "C19": {"level": "model_checking", "campaigns": [CAMPAIGNS["summaries"]], "assumptions": []},
+    "C19": {"level": "model_checking", "campaigns": [CAMPAIGNS["summaries"], CAMPAIGNS["summary_universe"]], "assumptions": []},
     "C01": {"level": "model_checking", "campaigns": [CAMPAIGNS["hdf5_roundtrip"]], "assumptions": []},
     "C04": {"level": "model_checking", "campaigns": [CAMPAIGNS["hdf5_roundtrip"]], "assumptions": []},
     "C02": {"level": "model_checking", "campaigns": [CAMPAIGNS["json_roundtrip"]], "assumptions": []},
@@ -359,7 +376,7 @@ PROPERTIES = {
     },
     "C13": {
         "level": "model_checking",
-        "campaigns": [CAMPAIGNS["transforms"]],
+        "campaigns": [CAMPAIGNS["transforms"], CAMPAIGNS["transform_universe"]],
         "assumptions": ["results of divisions are mapped to the nearest small rational within 1e-12 relative"],
     },
     "C16": {
@@ -382,7 +399,7 @@ PROPERTIES = {
     },
     "C06": {
         "level": "model_checking",
-        "campaigns": [CAMPAIGNS["reorder_full"], CAMPAIGNS["reorder_len4"], CAMPAIGNS["recorded_suite"], CAMPAIGNS["involutions"]],
+        "campaigns": [CAMPAIGNS["reorder_full"], CAMPAIGNS["reorder_len4"], CAMPAIGNS["reorder_universe"], CAMPAIGNS["recorded_suite"], CAMPAIGNS["involutions"]],
         "assumptions": ["copy.deepcopy, scipy toarray and numpy are trusted for the projection"],
     },
 }
